@@ -205,6 +205,11 @@ def handle (iasOfMach : Rat → Int → Rat) (ws : List String) : String :=
       let e := fun (o : Option Nat) => match o with | some n => fmtNat n | none => "''"
       joinBar [e f.di, fmtStr f.ic, fmtBool f.los, e f.pr, e f.rr, e f.rrs, fmtStr f.bds]
     | _ => "BAD-OP"
+  | ["demod", nf, den, samples] =>
+    let d : Rat := ((den.toNat?).getD 1 : Nat)
+    let buf : List Rat := (samples.splitOn ",").filterMap (fun t => (t.toInt?).map (fun (i : Int) => (i : Rat) / d))
+    let nf0 : Rat := if nf == "-" then 1000000 else rat! nf
+    fmtRes (fun r => fmtMsgs r.1 ++ "|" ++ toString r.2.2.length) (processBuffer nf0 buf)
   | ["trk", ref, calls] => trkOp iasOfMach ref calls
   | "aero" :: fn :: args =>
     let a := args.map floatOfHex
